@@ -30,6 +30,7 @@ struct Config {
 	int mtu = 0;                       // server -m
 	bool pass_env_client = false;      // password handed to the client in IODINE_PASS instead of -P
 	bool pass_env_server = false;      // password handed to the server in IODINED_PASS instead of -P
+	std::string decoy_env_server, decoy_env_client;   // a DIFFERENT value put into IODINED_PASS / IODINE_PASS while -P is given (-P wins)
 	uint32_t srv_seed = 7, cli_seed = 11;
 	sim::Addr nameserver;              // where clients send queries (default: the server itself)
 	bool client_v6 = false;
